@@ -25,11 +25,16 @@ def _views(proc):
     return v
 
 
-def run_with_crashes(make_proc, crash_points, resume_for_wait, transport=None, budget=4000, max_restores=64):
+def run_with_crashes(make_proc, crash_points, resume_for_wait, transport=None, budget=4000, max_restores=64, persister=None, lag=0, resume_mode='plain'):
     """make_proc(loop) -> process.  resume_for_wait(j) -> list of resume args for the j-th wait (0-based).
 
-    transport(bundle) -> bundle: how the snapshot travels (default: pickle round trip)."""
+    transport(bundle) -> bundle: how the snapshot travels (default: pickle round trip).
+
+    persister: checkpoints are written with persister.save_checkpoint(process) and read back with load_checkpoint(pid)
+    (the real API instead of a Bundle made by the harness); the instance that wrote the checkpoint then runs on for
+    ``lag`` more boundaries before it is abandoned -- that work is lost and has to be done again by the restored run."""
     crash_points = set(crash_points)
+    lagging = [None]  # [index of the checkpoint boundary, boundaries still to run before the crash]
     boundary = [0]  # global boundary counter across restores
     snapshot = [None]
     log = []
@@ -45,7 +50,7 @@ def run_with_crashes(make_proc, crash_points, resume_for_wait, transport=None, b
                 if snapshot[0] is None:
                     proc = make_proc(drv.loop)
                 else:
-                    bundle = transport(snapshot[0])
+                    bundle = persister.load_checkpoint(snapshot[0]) if persister is not None else transport(snapshot[0])
                     proc = bundle.unbundle(plumpy.LoadSaveContext(loop=drv.loop))
                     restores += 1
             finally:
@@ -55,7 +60,21 @@ def run_with_crashes(make_proc, crash_points, resume_for_wait, transport=None, b
                 if to in ('running', 'waiting') and not crash[0]:
                     idx = boundary[0]
                     boundary[0] += 1
-                    if idx in crash_points:
+                    if lagging[0] is not None:
+                        # work done after the checkpoint, about to be lost
+                        lagging[0][1] -= 1
+                        if lagging[0][1] <= 0:
+                            crash[0] = True
+                        return
+                    if idx in crash_points and persister is not None:
+                        persister.save_checkpoint(p)
+                        snapshot[0] = p.pid
+                        log.append(['checkpoint', idx, to, len(p.trace), 'lag', lag])
+                        if lag <= 0:
+                            crash[0] = True
+                        else:
+                            lagging[0] = [idx, lag]
+                    elif idx in crash_points:
                         # a process with a context must be dereferenced at once (the saved state only points to the live ctx, see
                         # ContextMixin.save_instance_state); otherwise the plain in-memory bundle is kept and serialised later, so
                         # that values shared with the still running original would show
@@ -78,13 +97,25 @@ def run_with_crashes(make_proc, crash_points, resume_for_wait, transport=None, b
                         j = sum(1 for t in proc.trace if t[0] == 'leave' and t[-1] == 'wait') - 1
                         j = max(j, 0)
                         args = resume_for_wait(j)
+                        # 'pause-resume' / 'resume-pause': a pause request lands in the same loop iteration as the resume (the
+                        # process is played again at the next quiescent point)
+                        if resume_mode == 'pause-resume':
+                            proc.pause('with-resume')
                         proc.resume(*args)
+                        if resume_mode == 'resume-pause':
+                            proc.pause('with-resume')
                         log.append(['resume', j, _jsonable(args)])
                     else:
                         incon = 'stuck:%s' % proc.state.value
                         break
             except BudgetExceeded:
                 incon = 'budget'
+            if lagging[0] is not None and not incon:
+                # the instance that wrote the checkpoint is abandoned now (at the latest when it terminated): its work since
+                # the checkpoint is lost, boundaries are counted again from the checkpoint
+                crash[0] = True
+                boundary[0] = lagging[0][0] + 1
+                lagging[0] = None
             result = None
             if not crash[0] or incon:
                 result = {'views': _views(proc), 'trace': list(proc.trace), 'task': lifecycle.Run._task_info(task),
